@@ -48,3 +48,94 @@ Theorem C16_recoverable : forall U fuel st v st' r,
   i_levels st' = i_levels st /\ i_limit st' = i_limit st.
 Proof. intros U fuel st v st' r H N. destruct (eval_value_restores U fuel st v st' r H N) as (A & _ & B). split; assumption. Qed.
 Print Assumptions C16_recoverable.
+
+(* ---- exactness: the threshold is N, for every N and every depth (Proofs/DepthFacts.v) ---- *)
+From Molt Require Import Model.Unicode Proofs.DepthFacts.
+
+(* d nested `if 1 {...}` bodies around one recorder call need d+1 levels: with limit N the script
+   succeeds (recorder called once, nothing else changed) iff d+1 <= N; otherwise it fails with the
+   catchable 'too many nested calls' error, the recorder is not reached and the level is back at 0.
+   errvars_ok: errorInfo / errorCode are not arrays (otherwise recording the error fails: D32). *)
+Theorem C16_if_nest_exact : forall U (N : N) (d fuel : nat) st,
+  i_levels st = 0 -> i_limit st = N ->
+  if_bound st -> rec_bound st ->
+  (d + 1 <= fuel)%nat ->
+  (N.of_nat d + 1 <= N ->
+     exists st',
+       eval U fuel st (nest_if d) = (st', Ok (VStr (lit "deep")))
+       /\ i_levels st' = 0 /\ i_limit st' = N /\ i_cmds st' = i_cmds st
+       /\ i_scopes st' = i_scopes st
+       /\ i_trace st' = deep_call :: i_trace st)
+  /\
+  (N < N.of_nat d + 1 ->
+   errvars_ok (i_scopes st) ->
+     exists st' e,
+       eval U fuel st (nest_if d) = (st', Err e)
+       /\ x_code e = CError /\ x_value e = VStr too_many_nested
+       /\ i_levels st' = 0 /\ i_limit st' = N /\ i_cmds st' = i_cmds st
+       /\ i_trace st' = i_trace st /\ errvars_ok (i_scopes st')).
+Proof. exact DepthFacts.C16_if_nest_exact. Qed.
+Print Assumptions C16_if_nest_exact.
+
+(* any mixture of `if` and `catch` wrappers, from any current level *)
+Theorem C16_nest_exact : forall U ks fuel st,
+  Forall no_var ks ->
+  Forall (kind_bound st) ks -> rec_bound st ->
+  (length ks + 1 <= fuel)%nat ->
+  (i_levels st + N.of_nat (length ks) + 1 <= i_limit st ->
+     eval U fuel st (nestk ks) = (set_trace st (deep_call :: i_trace st), Ok (val ks)))
+  /\
+  (i_limit st < i_levels st + N.of_nat (length ks) + 1 ->
+   errvars_ok (i_scopes st) ->
+     exists st' r,
+       eval U fuel st (nestk ks) = (st', r)
+       /\ matches (out (N.to_nat (i_limit st - i_levels st)) ks) r
+       /\ i_trace st' = i_trace st /\ i_levels st' = i_levels st /\ i_limit st' = i_limit st
+       /\ i_cmds st' = i_cmds st /\ errvars_ok (i_scopes st')).
+Proof. exact DepthFacts.C16_nest_exact. Qed.
+Print Assumptions C16_nest_exact.
+
+(* `foreach` bodies count the same way *)
+Theorem C16_foreach_nest_exact : forall U (N : N) (d fuel : nat) st,
+  i_levels st = 0 -> i_limit st = N ->
+  foreach_bound st -> rec_bound st ->
+  scopes_ready (i_scopes st) ->
+  (d + 1 <= fuel)%nat ->
+  exists st' r,
+    eval U fuel st (nest_foreach d) = (st', r)
+    /\ i_levels st' = 0 /\ i_limit st' = N /\ i_cmds st' = i_cmds st
+    /\ scopes_ready (i_scopes st')
+    /\ (N.of_nat d + 1 <= N ->
+          r = Ok (match d with O => VStr (lit "deep") | S _ => v_empty end)
+          /\ i_trace st' = deep_call :: i_trace st)
+    /\ (N < N.of_nat d + 1 ->
+          (exists e, r = Err e /\ x_code e = CError /\ x_value e = VStr too_many_nested)
+          /\ i_trace st' = i_trace st).
+Proof. exact DepthFacts.C16_foreach_nest_exact. Qed.
+Print Assumptions C16_foreach_nest_exact.
+
+(* on the interpreter the checker builds, with no side hypotheses, including recovery: after the
+   failure the same interpreter evaluates a script of the full depth N again *)
+Theorem C16_harness_if_nest : forall (N : N) (d fuel : nat),
+  1 <= N -> (d + 1 <= fuel)%nat ->
+  (N.of_nat d + 1 <= N ->
+     exists st',
+       eval std_uni fuel (limited N) (nest_if d) = (st', Ok (VStr (lit "deep")))
+       /\ i_levels st' = 0 /\ i_limit st' = N /\ i_trace st' = [deep_call])
+  /\
+  (N < N.of_nat d + 1 ->
+     exists st' e,
+       eval std_uni fuel (limited N) (nest_if d) = (st', Err e)
+       /\ x_code e = CError /\ x_value e = VStr too_many_nested
+       /\ i_levels st' = 0 /\ i_limit st' = N /\ i_trace st' = []
+       /\ forall fuel', (N.to_nat N <= fuel')%nat ->
+            exists st'',
+              eval std_uni fuel' st' (nest_if (N.to_nat N - 1)) = (st'', Ok (VStr (lit "deep")))
+              /\ i_levels st'' = 0 /\ i_trace st'' = [deep_call]).
+Proof. exact DepthFacts.C16_harness_if_nest. Qed.
+Print Assumptions C16_harness_if_nest.
+
+(* the scripts the checker generates for the `if` construct are these nests *)
+Theorem C16_checker_nest_is_nest_if : forall d, Molt.Check.C16.nest 1 d false = nest_if (Z.to_nat d).
+Proof. exact checker_nest_if. Qed.
+Print Assumptions C16_checker_nest_is_nest_if.
